@@ -17,7 +17,7 @@ Definition fmt_ok (fm : fmt) : bool :=
   && String.eqb (tr_time_w fm) (tr_time_r fm) && String.eqb (tr_time_w fm) (tr_time_drop fm)
   && forallb (fun s => negb (String.eqb s (tr_time_w fm))) drop_fields
   && String.eqb (etc_time_w fm) (etc_time_r fm) && negb (String.eqb (em_attr_w fm) (etc_time_w fm))
-  && (0 <=? etc_width fm) && (0 <=? tl_width fm).
+  && (0 <=? etc_width fm) && (0 <=? tl_width fm) && is_some (tr_layout_guard fm).
 
 Record fmt_facts (fm : fmt) : Prop := {
   ff_em_attr : em_attr_w fm = em_attr_r fm;
@@ -32,19 +32,21 @@ Record fmt_facts (fm : fmt) : Prop := {
   ff_etc_time : etc_time_w fm = etc_time_r fm;
   ff_etc_attr : String.eqb (em_attr_w fm) (etc_time_w fm) = false;
   ff_etc_w : 0 <= etc_width fm;
-  ff_tl_w : 0 <= tl_width fm
+  ff_tl_w : 0 <= tl_width fm;
+  ff_guard : exists e, tr_layout_guard fm = Some e
 }.
 
 Lemma fmt_ok_facts fm : fmt_ok fm = true -> fmt_facts fm.
 Proof.
   unfold fmt_ok. intros H. rewrite !andb_true_iff in H.
-  destruct H as [[[[[[[[[[[[H1 H2] H3] H4] H5] H6] H7] H8] H9] H10] H11] H12] H13].
+  destruct H as [[[[[[[[[[[[[H1 H2] H3] H4] H5] H6] H7] H8] H9] H10] H11] H12] H13] H14].
   apply String.eqb_eq in H1, H2, H4, H5, H7, H8, H10. apply negb_true_iff in H11.
   rewrite forallb_forall in H3, H6, H9.
   constructor; try assumption; try lia.
   - intros c. apply negb_true_iff. apply H3. destruct c; simpl; tauto.
   - intros c. apply negb_true_iff. apply H6. destruct c; simpl; tauto.
   - intros s Hs. apply negb_true_iff. apply H9. exact Hs.
+  - destruct (tr_layout_guard fm) as [e|]; [exists e; reflexivity | discriminate].
 Qed.
 
 (* ------------------------------------------------------------------------------------------ *)
@@ -191,7 +193,7 @@ Qed.
 (* per-member conditions under which a row of a written track is the member's own record *)
 Definition member_ok (d0 d : drop) : Prop :=
   valid_drop d = true /\ cls d = cls d0 /\ List.length (dpos d) = List.length (dpos d0)
-  /\ (List.length (ampl d) <> 1%nat \/ List.length (ampl d0) = 1%nat).
+  /\ List.length (ampl d) = List.length (ampl d0).
 
 Lemma enc_track_row_plain fm d0 t d r :
   member_ok d0 d -> enc_track_row fm d0 (t, d) = Ok r ->
@@ -206,7 +208,7 @@ Proof.
   assert (Ea : a = ampl d).
   { unfold wf_drop in Hwf. apply andb_prop in Hwf as [_ Hwa]. rewrite Hc in Hwa.
     destruct (has_ampl (cls d0)).
-    - apply fit_ok_cases in Ha as [[_ E]|[E1 E2]]; [exact E|]. exfalso. destruct Hnb as [Hn|Hn]; congruence.
+    - apply fit_ok_cases in Ha as [[_ E]|[E1 E2]]; [exact E|]. exfalso. congruence.
     - injection Ha as <-. cbn [orb] in Hwa. destruct (ampl d); [reflexivity|discriminate]. }
   rewrite Ea, <- Hc. destruct d; reflexivity.
 Qed.
@@ -266,18 +268,41 @@ Qed.
 Definition float_times (l l' : track) : Prop :=
   Forall2 (fun x y => snd y = snd x /\ exists b, time_f64 (fst x) = Ok b /\ fst y = TFloat b) l l'.
 
+Lemma layout_eqb_parts a b : layout_eqb (layout a) (layout b) = true ->
+  List.length (dpos a) = List.length (dpos b) /\ List.length (ampl a) = List.length (ampl b).
+Proof.
+  unfold layout, layout_eqb. intros H. rewrite !andb_true_iff in H. destruct H as [[H1 _] H3].
+  apply Nat.eqb_eq in H1, H3. auto.
+Qed.
+
+(* the layout check of DropletTrack.data: a track that is written has members of one layout *)
+Lemma enc_track_uniform fm l ds : (exists e, tr_layout_guard fm = Some e) -> enc_track fm l = Ok ds ->
+  match l with
+  | [] => True
+  | td0 :: _ => forallb (fun td => layout_eqb (layout (snd td)) (layout (snd td0))) l = true
+  end.
+Proof.
+  intros [e He] Henc. destruct l as [|td0 rest]; [exact I|]. unfold enc_track in Henc.
+  destruct (negb _); [discriminate|]. unfold layout_guard in Henc. rewrite He in Henc.
+  destruct (forallb _ (td0 :: rest)); [reflexivity|discriminate].
+Qed.
+
 Lemma dec_enc_track_core fm l ds :
-  fmt_ok fm = true -> valid_track l = true -> no_bcast l = true ->
+  fmt_ok fm = true -> valid_track l = true ->
   enc_track fm l = Ok ds -> exists l', dec_track fm ds = Ok l' /\ float_times l l'.
 Proof.
-  intros Hfm Hv Hnb Henc. apply fmt_ok_facts in Hfm. pose proof Hfm as Hff. destruct Hfm.
+  intros Hfm Hv Henc. pose proof Henc as Henc0. apply fmt_ok_facts in Hfm. pose proof Hfm as Hff. destruct Hfm.
   unfold enc_track in Henc. destruct l as [|td0 rest].
   - injection Henc as <-. exists []. split; [|constructor].
     unfold dec_track, none_dataset. cbn [ds_attrs ds_body].
     rewrite ff_tr_attr0, lookup_head, ff_tr_none0, String.eqb_refl. reflexivity.
   - set (l := td0 :: rest) in *. set (d0 := snd td0) in *.
     destruct (forallb (fun td => class_eqb (cls (snd td)) (cls d0)) l) eqn:Hc; [|discriminate].
-    cbn [negb] in Henc. apply bind_ok in Henc as (rows & Hrows & Henc).
+    cbn [negb] in Henc.
+    pose proof (enc_track_uniform fm l ds ff_guard0 Henc0) as Hlay.
+    change (forallb (fun td => layout_eqb (layout (snd td)) (layout d0)) l = true) in Hlay.
+    destruct (layout_guard fm d0 l); [discriminate|].
+    apply bind_ok in Henc as (rows & Hrows & Henc).
     destruct (zero_sized d0); [discriminate|]. injection Henc as <-.
     (* facts about the members *)
     unfold valid_track in Hv. apply andb_prop in Hv as [Hvd Hsd].
@@ -291,10 +316,7 @@ Proof.
       - apply Hvd. exact Htd.
       - apply class_eqb_eq. apply Hc. exact Htd.
       - apply Hsd'. apply in_map. exact Htd.
-      - unfold no_bcast in Hnb. subst l d0. destruct td0 as [t0 d0']. cbn [snd] in *.
-        rewrite forallb_forall in Hnb. specialize (Hnb td Htd). apply orb_prop in Hnb as [H|H].
-        + left. apply negb_true_iff in H. apply Nat.eqb_neq. exact H.
-        + right. apply Nat.eqb_eq. exact H. }
+      - rewrite forallb_forall in Hlay. apply (layout_eqb_parts (snd td) d0). apply Hlay. exact Htd. }
     destruct (enc_track_rows_plain fm d0 l rows Hm Hrows) as (lt & Hlt & ->).
     assert (Hsnd : map snd lt = map snd l).
     { clear -Hlt. induction Hlt as [|x y l1 l2 [_ H] _ IH]; simpl; [reflexivity|]. rewrite H, IH. reflexivity. }
